@@ -76,7 +76,8 @@ class Ctx:
 
     # -- finishing --------------------------------------------------------
     def finish(self, repo, write=True):
-        known = [k for k in load_known()
+        allknown = load_known()
+        known = [k for k in allknown
                  if self.pid == k.get('property')
                  or self.pid in (k.get('properties') or [])]
         lines = []
@@ -84,7 +85,10 @@ class Ctx:
         known_hit = []
         for f in self.findings:
             match = None
-            for k in known:
+            # a finding attributed from another property's rule is the same
+            # defect wherever it is listed
+            pool = allknown if f.get('slots', {}).get('pooled') else known
+            for k in pool:
                 if k.get('status') == 'known' and k.get('rule') == f['rule'] \
                         and k.get('construct') == f['construct'] \
                         and k.get('key') == f['key']:
